@@ -323,6 +323,7 @@ def run(chk):
                         "`consumed` is a def-use notion: the field is read (or handed to a consumer that reads it); that the reader honours Python's meaning of the field is covered by the other properties",
                         "ast.NodeTransformer.generic_visit visits every child field (CPython)"]
     chk.not_covered += ["decorators/keywords of the outermost @guppy function are handled by the decorator itself", "comprehension internals (desugar_comprehension)"]
+    expression_builder_keeps_operators(chk)
     comprehension_clauses(chk)
     chk.use_engine(e)
 
@@ -423,3 +424,80 @@ def comprehension_clauses(chk):
     for k in ("guppylang_internals.compiler.stmt_compiler:StmtCompiler", "guppylang_internals.ast_util:get_type", "guppylang_internals.tys.builtin:bool_type"):
         e.models.pop(k, None)
     chk.use_engine(e)
+
+
+def expression_builder_keeps_operators(chk):
+    """ExprBuilder (cfg/builder.py) rewrites expressions on their way into the basic blocks (it lifts
+    branching sub-expressions and folds a minus sign into a numeric literal).  For an expression WITHOUT
+    branching constructs it must hand the type checker the expression that was written: the statement
+    that reaches the block, unparsed, is the source statement, unparsed — no operator, operand, keyword
+    or subscript vanishes on the way (a dropped unary `+` would never be looked up as `__pos__`, nor
+    rejected where the operand has none)."""
+    from . import C03 as C3
+    from .common import ast_from_source
+    BM = "guppylang_internals.cfg.builder"
+    e = C3.cfg_engine(chk)
+    for q in ("ExprBuilder.visit_UnaryOp", "ExprBuilder.generic_visit", "ExprBuilder.build"):
+        try:
+            e.func_info(BM, q)
+        except KeyError:
+            pass
+    OPERANDS = ["x", "f(x)", "s.a", "xs[i]", "(x, y)", "1", "2.5", "True", "'t'", "None", "x + y", "-x"]
+    # (`-True` is left out: the fold of a minus sign into a numeric literal also fires for it and gives -1,
+    # which is Python's value of -True)
+    EXPRS = [f"{op}{o}" for op in ("+", "-", "~", "not ") for o in OPERANDS if (op, o) != ("-", "True")] + ["+(+x)", "-(+1)", "+(-1)", "-(-1)", "- 1", "+ 1", "~1", "not 1", "x + -1", "f(+x, k=-y)", "xs[+i]", "(+x, -y)", "[+x]",
+                                                                                "x ** -y", "+x * y", "x @ y", "x // -2", "x if False else 1"][:-1]
+    n = 0
+    for ex in EXPRS:
+        def t(it, ex=ex):
+            m = e.module(BM)
+            it.ctx.mod_globals(m)["tmp_vars"] = [f"%tmp{k}" for k in range(50)]
+            CB = it.lookup_global(m, "CFGBuilder")
+            fd = ast_from_source(it, f"def fn():\n    r = {ex}\n").fields["body"][0]
+            return it.call_method(it.call(CB, [], {}), "build", [fd.fields["body"], True, SObj(ClassVal("Globals", builtin=True), {})])
+        paths = e.explore(t)
+
+        def post(p, ex=ex):
+            if p.kind != "return":
+                return z3.BoolVal(False)
+            stmts = [C3.to_real_ext(st) for bb in p.value.fields["bbs"] for st in bb.fields["statements"]]
+            want = ast.unparse(ast.parse(f"r = {ex}"))
+            return z3.BoolVal(len(stmts) == 1 and ast.unparse(stmts[0]) == want)
+        chk.prove_paths(f"ExprBuilder[r = {ex}]:the-statement-that-reaches-the-block-is-the-statement-written(no-operator-dropped)", paths, post, func=f"{BM}:ExprBuilder.visit_UnaryOp",
+                        replay=lambda m_: {"script": REPLAY_UPLUS, "input": {}})
+        n += 1
+    chk.record("ExprBuilder:expressions-explored", n >= 60, str(n), kind="reachability")
+    chk.use_engine(e)
+
+
+REPLAY_UPLUS = r'''
+import tempfile, importlib.util, os, sys, shutil
+from guppylang_internals.error import GuppyError
+src = """from guppylang import guppy
+@guppy
+def plus_bool(b: bool) -> bool:
+    return +b
+@guppy
+def plus_tuple(t: tuple[int, int]) -> tuple[int, int]:
+    return +t
+@guppy
+def plus_int(x: int) -> int:
+    return +x
+"""
+d = tempfile.mkdtemp(dir=os.environ.get("TMPDIR", "/var/tmp")); fn = os.path.join(d, "replay_c32u.py"); open(fn, "w").write(src)
+spec = importlib.util.spec_from_file_location("replay_c32u", fn); m = importlib.util.module_from_spec(spec); sys.modules["replay_c32u"] = m
+try:
+    spec.loader.exec_module(m)
+    res = {}
+    for name in ("plus_bool", "plus_tuple", "plus_int"):
+        try:
+            getattr(m, name).check(); res[name] = "accepted"
+        except GuppyError as ex:
+            res[name] = "rejected:" + type(ex.error).__name__
+    out = {"violates": res["plus_bool"] == "accepted" or res["plus_tuple"] == "accepted" or res["plus_int"] != "accepted", "observed": res,
+           "required": "unary plus on a bool or a tuple has no __pos__: it must be rejected, not dropped; +x on an int is accepted"}
+except Exception as ex:
+    out = {"violates": False, "error": repr(ex)[:300]}
+shutil.rmtree(d, ignore_errors=True)
+print(json.dumps(out))
+'''
